@@ -317,6 +317,19 @@ func timeKey(t compact_time.Time) string {
 	return fmt.Sprintf("time?%d", t.Type)
 }
 
+// bigFloatExponentOK: the binary exponent has at most 5 decimal digits (the default
+// MaxFloatExponentDigitCount)
+func bigFloatExponentOK(v *big.Float) bool {
+	if v == nil || v.IsInf() {
+		return true
+	}
+	e := v.MantExp(nil)
+	if e < 0 {
+		e = -e
+	}
+	return e <= 99999
+}
+
 // timeOK: the format's ranges for the fields of a time (independent of compact_time.Validate)
 // and an area/location the text grammar can spell.
 var areaLocRE = regexp.MustCompile(`^[A-Z][a-zA-Z0-9_./+-]*$`)
@@ -497,7 +510,9 @@ func (r *Recorder) OnBigFloat(v *big.Float) {
 	if v == nil {
 		r.add(floatEv("OnBigFloat", "", "nil"))
 	} else {
-		r.add(floatEv("OnBigFloat", bigFloatKey(v), ""))
+		e := floatEv("OnBigFloat", bigFloatKey(v), "")
+		e.POK = bigFloatExponentOK(v)
+		r.add(e)
 	}
 	if r.Next != nil {
 		r.Next.OnBigFloat(v)
@@ -969,9 +984,13 @@ func InvokeV(recv events.DataEventReceiver, e AEv, vb *volatileBuf) {
 			recv.OnFloat(parseF64Key(e.K))
 		}
 	case "OnBigFloat":
-		if e.Sp == "nil" {
+		switch {
+		case e.Sp == "nil":
 			recv.OnBigFloat(nil)
-		} else {
+		case !e.POK && bigFloatExponentOK(parseBigFloatKey(e.K)): // the model's "exponent beyond the limit" made concrete
+			v := parseBigFloatKey(e.K)
+			recv.OnBigFloat(v.SetMantExp(v, 1000000))
+		default:
 			recv.OnBigFloat(parseBigFloatKey(e.K))
 		}
 	case "OnDecimalFloat":
